@@ -273,7 +273,11 @@ static ListColumn ratio_column = {
 
 static void method_crc_column_print(LHAFileHeader *header)
 {
-	printf("%-5s %04x", header->compress_method, header->crc);
+	// The compression method is copied verbatim from the file header,
+	// so it must not be printed without being sanitized.
+
+	safe_printf("%-5s", header->compress_method);
+	printf(" %04x", header->crc);
 }
 
 static ListColumn method_crc_column = {
